@@ -1,17 +1,24 @@
 """C09 — expression types follow the language's conversion rules.
 
 Obligations
-  theorems   Cppcheck.Props.C09 (Lean): the model of SymbolDatabase::setValueType's operator typing (`conv*`) against
-             the C17 / C++17 rules (`spec*`), for EVERY platform shape (not only the table): exact characterisation
-             of the inputs on which they differ (`*_eq_spec_iff`), `_partial` theorems with the excluding hypothesis,
-             proved counterexamples (F7 …), and the table theorems over the platforms generated on this run.
+  theorems   Cppcheck.Props.C09 (Lean): the model of SymbolDatabase::setValueType's operator typing (`conv*`, the code as pinned =
+             variant `.base`) against the C17 / C++17 rules (`spec*`), for EVERY consistent platform shape (not only the table):
+             `_partial` theorems whose hypotheses are the deviation classes K1..K5, theorems that a class deviates everywhere,
+             proved counterexamples on the platforms of the generated table (F7: win64 / unix64, avr8), theorems about the
+             code with the proposed patches (`.fixA`, `.fixAB`: documentation of the repaired algorithm), and the UNBOUNDED
+             integer-literal theorem (every value, every triple of maxima; class K6 = octal literals).
   T1         Platform::set (lib/platform.cpp) + string→Type chain + loadFromXmlDocument chain + platforms/*.xml
-             → lean/Cppcheck/Gen/PlatformsC09.lean (fail closed)
-  C1         EXHAUSTIVE in-process correspondence: for every platform × {C, C++} × every ordered pair of the 15
-             arithmetic types × every operator: real Tokenizer + SymbolDatabase (harness/c09.cpp) vs the Lean model
-  T2         the sizes the real Platform object holds after Platform::set(name) == the generated record (harness `plat`)
-P_impl       type attached by the real code == type the language gives (the Lean spec, which the thorough tier
-             validates against clang --target=<data model> _Generic/decltype probes)
+             → lean/Cppcheck/Gen/PlatformsC09.lean (fail closed); theorems platforms_sane / platforms_maxima_ordered and the
+             witnesses are re-proved over it on every run
+  T2         the fields the real Platform object holds after Platform::set(name) == the generated record (harness `plat`)
+  C1         EXHAUSTIVE in-process correspondence: every platform x {C, C++} x every ordered pair of the 15 arithmetic types x
+             every binary operator / ?: / unary operator / cast: real Tokenizer + SymbolDatabase (harness/c09.cpp) vs the
+             Lean model `.base` (a tree that matches `.fixA`/`.fixAB` instead is reported as a correspondence break)
+  C2         integer literals: boundary grid + seeded values x dec/oct/hex/bin x every suffix x platforms vs the model
+  oracle     thorough tier: clang -fsyntax-only _Generic / decltype probes for 16 target/flag combinations validate the SPEC
+P_impl       type attached by the real code == type the language gives, evaluated on every explored case; a deviation is a
+             KNOWN-FINDING only if it lies in a listed class (predicates computed by the Lean driver with the definitions the
+             theorems use) AND equals what the model of the pinned code predicts; anything else is a VIOLATION with a replay.
 """
 import os, re, json, glob
 import xml.etree.ElementTree as ET
@@ -23,13 +30,22 @@ RULE = ("cases = (platform, language, operator, operand type tuple): EVERY built
         "ordered pair of the 15 standard arithmetic types x every binary operator / ?: plus every unary operator and cast "
         "(exhaustive, not sampled); non-trivial = the operator is not a cast or assignment (whose result is an operand type "
         "by definition) i.e. a conversion rule is exercised")
-EXPLANATION = "filled in below"
+EXPLANATION = ("Proved in Lean for every consistent platform shape, both languages, all 15 arithmetic operand types: the code's operator "
+               "typing equals C17 6.3.1.1/6.3.1.8/6.5.x resp. C++17 [expr] outside the explicit classes K1..K5 (each with proved "
+               "counterexample, each reproduced on the real code = findings F9a..F9e), and integer-literal typing equals 6.4.4.1p5 for "
+               "every value outside K6 (octal literals, F9f). Tie: platform table by translator (fail closed) + EXHAUSTIVE in-process "
+               "correspondence of the model with the real Tokenizer/SymbolDatabase over the whole finite table; spec validated "
+               "against clang for 16 targets (thorough). Outside the model: pointer/array/container/record/enum/bit-field operands, "
+               "wchar_t/char16_t/char32_t/char8_t, unary plus (removed by the tokenizer), the comma operator, sizeof/alignof result "
+               "types, floating literal and character literal types (probed only), user-defined suffixes, i64 suffixes, "
+               "platforms given as Type::Unspecified for literals (suffix-only typing, not compared with the language).")
 THEOREMS = ["Cppcheck.C09." + t for t in (
     "platforms_sane platforms_consistent platforms_char_lt_int conv_eq_spec_partial conv_eq_spec_partial_table "
     "conv_counterexample conv_counterexample_lp64 sameSize_class_deviates arith_fixed_eq_spec promotion_below_int "
     "promotion_counterexample promotion_fixed shift_takes_left_type shift_fixed comparison_yields_int_or_bool "
     "lnot_yields_int_or_bool comparison_c_counterexample assignment_keeps_left_type cast_takes_target_type incdec_partial "
-    "incdec_fixed ternary_partial_different ternary_partial_same ternary_counterexample ternary_fixA_different ternary_fixed").split()]
+    "incdec_fixed ternary_partial_different ternary_partial_same ternary_counterexample ternary_fixA_different ternary_fixed "
+    "literal_type_partial literal_octal_deviates platforms_maxima_ordered literal_counterexample_oct literal_hex_window_closed").split()]
 MODULES = ["Cppcheck.Props.C09"]
 
 TYPES = ["bool", "char", "schar", "uchar", "short", "ushort", "int", "uint", "long", "ulong", "llong", "ullong", "float", "double", "ldouble"]
@@ -351,11 +367,7 @@ CLASSES = {
     "promotion-unsigned-fills-int": "F9b (class K2): every type below int is promoted to `signed int`: `unsigned short` operands of + - * / % & | ^ << >> unary - ~ "
                                     "where sizeof(short)==sizeof(int) (avr8, msp430_eabi_large_datamodel, pic8, pic8-enhanced, pic16) are typed `signed int`; "
                                     "C17 6.3.1.1p2 gives `unsigned int`",
-    "literal-hex-window": "F9f (class K6): a hexadecimal / binary integer literal with UINT_MAX < value <= 2*UINT_MAX+1 is typed `unsigned int` "
-                          "(`0x100000000`, `0x1FFFFFFFFu` on every platform with 32-bit int; the non-decimal branch tests isIntValue(value >> 2)), likewise "
-                          "`unsigned long` for ULONG_MAX < value <= 2*ULONG_MAX+1 (`0x100000000l` on win64); C17 6.4.4.1p5 gives the next type that can "
-                          "represent the value (`long` / `long long`); `sizeof(0x100000000) == 4` is folded to true on unix64",
-    "literal-octal-as-decimal": "F9g (class K7): an octal literal is treated as a decimal one (MathLib::isDec accepts every digit string), so the unsigned types "
+    "literal-octal-as-decimal": "F9f (class K6): an octal literal is treated as a decimal one (MathLib::isDec accepts every digit string), so the unsigned types "
                                 "of 6.4.4.1p5's octal/hex column are never chosen: `037777777777` (= UINT_MAX) is typed `signed long` on unix64 "
                                 "(`signed long long` on win64); the language gives `unsigned int`",
     "c-boolean-typed-bool": "F9c (class K3): in C, `a < b`, `a == b`, `a && b`, `!a` (and `_Bool ? _Bool : _Bool`) are typed `bool`; C17 6.5.8p6/6.5.9p3/6.5.13p3/6.5.3.3p5 "
@@ -603,10 +615,10 @@ def literal_devs(ctx, res, drv, exe, groups, tie, count):
         f = o.split()
         ok = f and f[0] == "ok" and len(f) - 1 == len(part)
         for k, c in enumerate(part):
-            m = re.match(r"^lit=(\S+)\|(\S+) K:k6=(\d),k7=(\d)$", mout[j])
+            m = re.match(r"^lit=(\S+)\|(\S+) K:k6=(\d)$", mout[j])
             if not m:
                 raise core.CheckBroken("C09 driver literal line: " + mout[j])
-            conv, spec, k6, k7 = m.groups()
+            conv, spec, k6 = m.groups()
             got = f[1 + k] if ok else "impl-error:" + o[:60]
             sp = lit_spelling(*c)
             desc = "%s %s %s" % (plat, lang, sp)
@@ -617,7 +629,7 @@ def literal_devs(ctx, res, drv, exe, groups, tie, count):
             if got != conv:
                 mism.append((desc, got, conv))
             if plat != "unspecified" and spec != "none" and got != spec:
-                key = "literal-hex-window" if k6 == "1" else ("literal-octal-as-decimal" if k7 == "1" else None)
+                key = "literal-octal-as-decimal" if k6 == "1" else None
                 if key is not None and got != conv:
                     key = None
                 devs.append(dict(op="lit %s %s %s %d %d %d %d" % (plat, lang, c[0], c[1], c[2], c[3], c[4]), name="lit", impl=got, spec=spec, key=key, text=sp))
@@ -685,7 +697,16 @@ def run(ctx, res):
     report(res, devs, "exhaustive table")
 
     # ---- literals: boundary grid + seeded values x bases x suffixes x platforms ---------------------------------------
-    ldevs = run_literals(ctx, res, drv, exe, names, thorough)
+    # literal typing reads int_bit/long_bit/long_long_bit only (and Type::Unspecified): the quick tier takes one platform per
+    # distinct triple (T2 ties every platform's fields to the table), the thorough tier all of them
+    lit_names, seen_bits = [], set()
+    for n, v in plats:
+        k = (n == "unspecified", v["char_bit"] * v["sizeof_int"], v["char_bit"] * v["sizeof_long"], v["char_bit"] * v["sizeof_long_long"])
+        if thorough or k not in seen_bits:
+            seen_bits.add(k)
+            lit_names.append(n)
+    res.extra["literal_platforms"] = lit_names
+    ldevs = run_literals(ctx, res, drv, exe, lit_names, thorough)
     res.extra["literal_deviations_from_language"] = len(ldevs)
     report(res, ldevs, "integer literal")
 
